@@ -1145,7 +1145,7 @@ def enc3i(cfg):
     return enc3(cfg, mode='inverse')
 
 
-def enc6(cfg):
+def enc6(cfg, classes=None):
     """ENC-6: capacity discipline of the growing buffers (key_encoder, key_buffer)"""
     from .point import xsig as _x, _inits as _in
     res = RuleResult('ENC-6', 'capacity discipline of the growing key buffers: ensure_available(req) grows exactly when off + req exceeds the capacity and asks for a capacity of off + req (not req); the member ensure_capacity hands (buf, cap, off, wanted) to the helper in this order; the helper allocates bit_ceil(wanted) >= wanted bytes, records that size as the new capacity and copies off bytes - so after ensure_available(req) the next req bytes at buf + off lie inside the allocation and the bytes already encoded are all there')
@@ -1153,6 +1153,8 @@ def enc6(cfg):
         if not f.blocks or f.short not in ('ensure_available', 'ensure_capacity'):
             continue
         if not (f.cls in (ENCODER, 'unodb::detail::key_buffer') or f.name.startswith('unodb::detail::ensure_capacity')):
+            continue
+        if classes is not None and f.cls and f.cls not in classes:
             continue
         res.count('capacity functions')
         res.functions.add(f.sig)
@@ -1192,20 +1194,48 @@ def enc6(cfg):
         res.ob(ok, {'rule': 'ENC-6', 'function': sh(f.sig)[:90], 'site': fileline(f.loc), 'verdict': 'discharged' if ok else 'VIOLATION'})
         if not ok:
             res.find(f, f.loc, '%s: %s - a later write of the requested bytes (or the copy of the bytes encoded so far) runs past the end of the allocation' % (sh(f.name)[:60], '; '.join(problems)), key='ENC-6:%s:%s' % (f.cls.split('::')[-1] if f.cls else 'detail', f.short), config=cfg.name)
-    res.floor('capacity functions', 5)
+    res.floor('capacity functions', 5 if classes is None else 3)
     return res
 
 
-def enc7(cfg):
+def enc7(cfg, classes=None):
     """ENC-7: what the buffers hand out and how they append"""
     from .point import xsig as _x, _inits as _in
     res = RuleResult('ENC-7', 'the growing key buffers hand out exactly the bytes written: get_key_view() is (buf, off), size_bytes() is off; every append of n bytes reserves n (ensure_available(n)) before it copies n bytes to buf + off from the data of its argument and advances off by the same n')
     for f in cfg.functions:
         if not f.blocks or f.cls not in (ENCODER, 'unodb::detail::key_buffer'):
             continue
+        if classes is not None and f.cls not in classes:
+            continue
         cname = f.cls.split('::')[-1]
         inits = _in(f)
-        if f.short in ('get_key_view', 'size_bytes'):
+        if f.short == 'push' and f.params and f.params[0].get('t') == 'std::byte':
+            # append of ONE byte: ensure_available(1) dominates the store buf[off++] = v
+            res.count('byte appends')
+            res.functions.add(f.sig)
+            ens = [(b, i, _x(f, e['args'][0], inits)) for b, i, e in f.elements() if e.get('k') == 'call' and e.get('name') == 'ensure_available' and e.get('args')]
+            stores = []
+            for b, i, e in f.elements():
+                if e.get('k') == 'binop' and e.get('op') == '=':
+                    l = f.strip_casts(e['l'])
+                    if isinstance(l, dict) and l.get('k') == 'index':
+                        stores.append((b, i, _x(f, l['base'], inits), _x(f, l['idx'], inits), _x(f, e['r'], inits)))
+            ok = len(ens) == 1 and ens[0][2] in ('sizeof(std::byte)', '1', 'sizeof(std)') and len(stores) == 1 and stores[0][2] == 'this.buf' and stores[0][3] in ('++(this.off)',) and stores[0][4] == 'p0' and (ens[0][0], ens[0][1]) < (stores[0][0], stores[0][1]) if (ens and stores and ens[0][0] == stores[0][0]) else False
+            if not ok and ens and stores and ens[0][0] != stores[0][0]:
+                res.incompl('ENC-7: %s::push(byte) spans several blocks: shape not recognised' % cname)
+                continue
+            res.ob(ok, {'rule': 'ENC-7', 'function': '%s::push(byte)' % cname, 'reserve': [x[2] for x in ens], 'store': [x[2:] for x in stores], 'verdict': 'discharged' if ok else 'VIOLATION'})
+            if not ok:
+                res.find(f, f.loc, '%s::push(byte): reserve %s, store %s - expected ensure_available(1) followed by buf[off++] = v: without the reservation the byte is written past the end of the buffer as soon as a key outgrows it (scans over long byte-string keys corrupt the heap)' % (cname, [x[2] for x in ens], [x[2:] for x in stores]), key='ENC-7:%s:push-byte' % cname, config=cfg.name)
+        elif f.short == 'pop' and f.cls == 'unodb::detail::key_buffer' and f.params:
+            res.count('byte appends')
+            res.functions.add(f.sig)
+            adv = [(e.get('op'), _x(f, e['r'], inits)) for b, i, e in f.elements() if e.get('k') == 'binop' and e.get('op') in ('-=', '+=', '=') and _x(f, e['l']) == 'this.off' and not is_assert_elem(e)]
+            ok = adv == [('-=', 'p0')]
+            res.ob(ok, {'rule': 'ENC-7', 'function': 'key_buffer::pop', 'offset_update': adv, 'verdict': 'discharged' if ok else 'VIOLATION'})
+            if not ok:
+                res.find(f, f.loc, 'key_buffer::pop(n) updates the offset by %s, expected off -= n: the key the iterator reports keeps bytes of the entry it has left (or loses bytes of the current one)' % adv, key='ENC-7:key_buffer:pop', config=cfg.name)
+        elif f.short in ('get_key_view', 'size_bytes'):
             res.count('buffer accessors')
             res.functions.add(f.sig)
             rets = [_x(f, e['e'], inits) for b, i, e in f.elements() if e.get('k') == 'return' and e.get('e') is not None]
@@ -1232,6 +1262,11 @@ def enc7(cfg):
             res.ob(ok, {'rule': 'ENC-7', 'function': '%s::%s(span)' % (cname, f.short), 'reserve': ens, 'copy': mc, 'advance': adv, 'verdict': 'discharged' if ok else 'VIOLATION'})
             if not ok:
                 res.find(f, f.loc, '%s::%s(span): reserve %s, copy %s, advance %s - expected ensure_available(n), memcpy(buf + off, data, n), off += n with n the size of the argument: bytes are written past the reservation, or the offset no longer matches what was written' % (cname, f.short, ens, mc, adv), key='ENC-7:%s:%s' % (cname, f.short), config=cfg.name)
-    res.floor('buffer accessors', 4)
-    res.floor('span appends', 2)
+    if classes is None:
+        res.floor('buffer accessors', 4)
+        res.floor('span appends', 2)
+    else:
+        res.floor('buffer accessors', 1)
+        res.floor('span appends', 1)
+    res.floor('byte appends', 2)
     return res
